@@ -321,6 +321,11 @@ int mod_deregister(m_mod_t **mod, bool from_user) {
     
     M_DEBUG("Deregistering module '%s'.\n", m->name);
     
+    /* Already being deregistered (eg: by one of its own callbacks): its name may belong to another module by now */
+    if (m_map_get(c->modules, m->name) != m) {
+        return -ENOENT;
+    }
+    
     int ret = 0;
     M_MEM_LOCK(m, {
         /* Remove the module from the context */
